@@ -245,6 +245,8 @@ var c15StoredAs = map[string]string{
 	"modeling.ScaleAttribute": "scaleData", "modeling.FDCAttribute": "colorData", "modeling.OpacityAttribute": "opacityData",
 }
 
+var c15AfterLoop []string
+
 type c15Rd struct {
 	fset *token.FileSet
 	env  map[string]string
@@ -474,6 +476,24 @@ func c15ReadSplat(repo string) (string, string, error) {
 	if stored != 5 {
 		return "", "", fmt.Errorf("read.go: %d of the 5 splat attributes are stored in the returned point cloud", stored)
 	}
+	// what follows the loop: `if err == io.EOF { err = nil }` and the return of (cloud, err)
+	after := []string{}
+	seen := false
+	for _, st := range rd.Body.List {
+		if st == ast.Stmt(loop) {
+			seen = true
+			continue
+		}
+		if seen {
+			if _, isRet := st.(*ast.ReturnStmt); isRet {
+				r := st.(*ast.ReturnStmt)
+				after = append(after, "return <cloud>, "+c15Src(t.fset, r.Results[len(r.Results)-1]))
+			} else {
+				after = append(after, c15Src(t.fset, st))
+			}
+		}
+	}
+	c15AfterLoop = after
 	return "{ " + strings.Join(parts, ",\n    ") + " }", bufSize, nil
 }
 
@@ -583,6 +603,11 @@ func c15SplatRecord(repo, out string, args []string) error {
 		return err
 	}
 	fmt.Fprintf(&b, "/-- one iteration of the record loop of `splat.Read` (formats/splat/read.go): the splat appended for the 32-byte record `r` -/\ndef readSplat (E : Env α) (r : Rec) : Splat α :=\n  %s\n\n/-- the read buffer -/\ndef readBuffer : String := %q\n\n", rdDef, bufSize)
+	qs := []string{}
+	for _, a := range c15AfterLoop {
+		qs = append(qs, fmt.Sprintf("%q", a))
+	}
+	fmt.Fprintf(&b, "/-- the record loop of `splat.Read` is `for { _, err = io.ReadFull(in, splatBuffer); if err != nil { break }; … }` (checked by the\n    extractor); these are the statements after it -/\ndef readAfterLoop : List String := [%s]\n\n", strings.Join(qs, ", "))
 	b.WriteString("end PolyVerif.Gen.SplatRecord\n")
 	return os.WriteFile(out, []byte(b.String()), 0o644)
 }
